@@ -275,7 +275,7 @@ def obligations(tier, seed):
            grid=[dict(NB=3, SZ0=5, SZ1=40, SZ2=3, UNREL=0, FOREIGN_HDR=1), dict(NPAGES=2, PPP=2, NB=2, SZ0=90, SZ1=4, PAD0=3, MAG=0, PG=0x1C, STREAM=0, CI0=15, FOREIGN_HDR=1)],
            bounds="2 layouts, no loss", reach=["end", "some"], timeout=600, mem_gb=3, **pfc_seq),
     ] + ([
-        # CANDIDATES (only with VERIF_CANDIDATES=1): refute the unchanged tree, see the report of the seed evaluation (TODO-defect-candidates.md item 4)
+        # FORMER CANDIDATES (refuted the pinned tree; the defects are repaired by fix commits, the obligations now guard them):, see the report of the seed evaluation (TODO-defect-candidates.md item 4)
         Ob("pfc_last_packet_loss_foreign_header", func="h_pfc_seq", desc="pfc_last_packet_loss with the header of another page of the same magazine between the two pages: "
            "the foreign header clears n_packets (pfc_demux.c:238), the test `dx->packet <= dx->n_packets' of the next header of ours can no longer see that packet 2 never "
            "came, the 40 byte block is completed with bytes of the next page and delivered",
@@ -286,7 +286,7 @@ def obligations(tier, seed):
            "continued on the next page",
            encodes=["vbi_pfc_demux_feed"], defines={}, grid=[dict(NB=3, SZ0=5, SZ1=40, SZ2=3, UNREL=0, FOREIGN_HDR=2)],
            bounds="1 layout", reach=["end"], timeout=900, mem_gb=6, **pfc_seq),
-    ] if os.environ.get("VERIF_CANDIDATES") else []) + [
+    ] if True else []) + [   # former candidates: the defects they decide are repaired in /repo (see known_findings.json)
         Ob("pfc_last_packet_loss", func="h_pfc_seq", desc="pfc_seq with the LAST packet of page 1 lost while a 40 byte block is in progress: refuted - the next page header "
            "(CI continuous) does not notice that packet 2 never came, the block is completed with bytes of the next page and delivered corrupted",
            encodes=["vbi_pfc_demux_feed", "_vbi_pfc_demux_decode"], grid=[dict(NB=3, SZ0=5, SZ1=40, SZ2=3, DROP=2, UNREL=0)],
